@@ -40,6 +40,7 @@ def run(ctx):
     ctx.do(rule_truncated_in_utc)
     ctx.do(rule_value_object)
     ctx.do(rule_state_keys_agree)
+    ctx.do(rule_metadata_compared_as_enums)
     ctx.do(rule_api_domain)
     ctx.do(rule_property_forward)
     from .hidden_state import rule_no_hidden_state
@@ -585,6 +586,39 @@ def rule_state_keys_agree(ctx, rule_id="C15.value-object"):
               "__setstate__ reads the keys %s but __reduce_ex__ writes %s (attributes set: %s): metadata is lost or defaulted when a "
               "timestamp is copied or unpickled" % (sorted(read), sorted(produced), sorted(setattrs)), file=cls.module.relpath,
               line=ss.node.lineno, function=ss.qualname, expected=sorted(produced), found=sorted(read))
+
+
+def rule_metadata_compared_as_enums(ctx, rule_id="C15.value-object"):
+    """The precision metadata of a STIXdatetime are ENUM members (Precision.MILLISECOND, PrecisionConstraint.MIN; to_enum in
+    __new__).  A comparison of `.precision` / `.precision_constraint` with a STRING literal is never true: the code that was
+    meant to recognise 'a value that already has millisecond precision' silently never does (the 2.0 statement marking loses its
+    three digits on every copy)."""
+    run = ctx.run
+    prog = ctx.prog
+    n = 0
+    for fi in sorted(prog.functions.values(), key=lambda f: f.id):
+        if fi.module.relpath.startswith("stix2/test"):
+            continue
+        k_ = 0
+        for c in body_walk(fi.node):
+            if not (isinstance(c, ast.Compare) and len(c.ops) == 1 and isinstance(c.ops[0], (ast.Eq, ast.NotEq, ast.In, ast.NotIn))):
+                continue
+            sides = [c.left, c.comparators[0]]
+            meta = [s_ for s_ in sides if (isinstance(s_, ast.Attribute) and s_.attr in ("precision", "precision_constraint"))
+                    or (isinstance(s_, ast.Call) and norm(s_.func) == "getattr" and len(s_.args) >= 2 and isinstance(s_.args[1], ast.Constant)
+                        and s_.args[1].value in ("precision", "precision_constraint"))]
+            if not meta:
+                continue
+            n += 1
+            other = [s_ for s_ in sides if s_ not in meta]
+            strs = [x for o_ in other for x in ast.walk(o_) if isinstance(x, ast.Constant) and isinstance(x.value, str)]
+            k_ += 1
+            run.check(not strs, rule_id, key(fi.module.relpath, fi.qualname, "metadata-compared-with-enum-members#%d" % k_),
+                      "timestamp metadata (an enum member) is compared with the string %r: never equal, so the branch meant for that "
+                      "precision is never taken" % (strs[0].value if strs else ""), file=fi.module.relpath, line=c.lineno,
+                      function=fi.qualname, expected="== Precision.<MEMBER>", found=short(c, 70))
+    if n < 1:
+        raise AnalysisError("no comparison of timestamp metadata attributes found (anchor lost: _should_set_millisecond)")
 
 
 def rule_api_domain(ctx):
